@@ -74,6 +74,8 @@ class Selector:
     # ------------------------------------------------------------------ expressions
     def ev(self, n, st):
         """[(state, value)] - evaluation may fork (imports) or raise (value None and state.raised set)"""
+        if isinstance(n, ast.UnaryOp) and isinstance(n.op, ast.USub) and isinstance(n.operand, ast.Constant) and isinstance(n.operand.value, int):
+            return [(st, ("const", -n.operand.value))]
         if isinstance(n, ast.Constant):
             if n.value is None:
                 return [(st, ("none",))]
@@ -120,6 +122,10 @@ class Selector:
             return out
         if isinstance(n, ast.Call):
             return self.call(n, st)
+        if isinstance(n, (ast.ListComp, ast.GeneratorExp)) and len(n.generators) == 1:
+            r = self.comprehension(n, st)
+            if r is not None:
+                return r
         if isinstance(n, (ast.BinOp, ast.JoinedStr, ast.Compare, ast.BoolOp, ast.UnaryOp, ast.IfExp)):
             # string building for messages etc.: evaluate calls inside for their effects, value unknown
             outs = [st]
@@ -128,6 +134,87 @@ class Selector:
                     outs = [s2 for s in outs for s2, _v in self.ev(c, s)]
             return [(s, ("?", norm(n)[:40])) for s in outs]
         return [(st, ("?", norm(n)[:40]))]
+
+    def _age(self, x, L):
+        def av(v):
+            if isinstance(v, tuple) and len(v) == 3 and v[1] == L and v[2] == "cur" and v[0] in ("row", "rowname", "rowmod", "preloaded", "imported"):
+                return (v[0], v[1], "stale")
+            if isinstance(v, tuple) and v and v[0] == "tuple":
+                return ("tuple", tuple(av(e) for e in v[1]))
+            if isinstance(v, tuple) and v and v[0] == "rowlist":
+                return ("rowlist", tuple(av(e) for e in v[1]))
+            return v
+        y = x.copy()
+        y.env = {k: av(v) for k, v in y.env.items()}
+        y.frames = [({k: av(v) for k, v in l.items()}, g) for l, g in y.frames]
+        y.conds = [((a[0], a[1], "stale") if len(a) == 3 and a[1] == L and a[2] == "cur" else a, t) for a, t in y.conds]
+        return y, av
+
+    def comprehension(self, n, st):
+        """[ELT for T in REGISTRY if ...]: evaluated like a loop that never breaks (two symbolic iterations); the value is
+        the list of the element values of the explored iterations"""
+        g = n.generators[0]
+        outs0 = self.ev(g.iter, st)
+        if len(outs0) != 1 or outs0[0][1] is None or outs0[0][1][0] != "registry":
+            return None
+        st = st.copy()
+        st.loops += 1
+        L = st.loops
+        st.events.append(("eager-scan", L, n))
+
+        def iteration(x):
+            x = self.assign(g.target, ("row", L, "cur"), x, n)
+            cur = [x]
+            for t in g.ifs:
+                cur = [s2 for s in cur for s2, tr in self.branch(t, s) if tr]
+            res = []
+            for s in cur:
+                for s2, v in self.ev(n.elt, s):
+                    res.append((s2, v))
+            return res
+        results = [(st, ("rowlist", ()))]
+        for s1, v1 in iteration(st):
+            if v1 is None:
+                results.append((s1, None))
+                continue
+            results.append((s1, ("rowlist", (v1,))))
+            a1, av = self._age(s1, L)
+            for s2, v2 in iteration(a1):
+                results.append((s2, ("rowlist", (av(v1), v2)) if v2 is not None else None))
+        return results
+
+    def next_call(self, n, st):
+        """next((ELT for T in ROWLIST if COND), DEFAULT): the first element that passes, else the default"""
+        gen = n.args[0]
+        if not (isinstance(gen, ast.GeneratorExp) and len(gen.generators) == 1):
+            return None
+        g = gen.generators[0]
+        outs = []
+        for s, lst in self.ev(g.iter, st):
+            if lst is None or lst[0] != "rowlist":
+                return None
+            pending = [s]
+            for elem in lst[1]:
+                nxt = []
+                for s1 in pending:
+                    s1 = self.assign(g.target, elem, s1, n)
+                    cur = [(s1, True)]
+                    for t in g.ifs:
+                        cur = [(s3, tr and tr2) for s2, tr in cur for s3, tr2 in (self.branch(t, s2) if tr else [(s2, False)])]
+                    for s2, tr in cur:
+                        if tr:
+                            outs += self.ev(gen.elt, s2)
+                        else:
+                            nxt.append(s2)
+                pending = nxt
+            for s1 in pending:
+                if len(n.args) > 1:
+                    outs += self.ev(n.args[1], s1)
+                else:
+                    s1 = s1.copy()
+                    s1.raised = ("StopIteration", n)
+                    outs.append((s1, None))
+        return outs
 
     def subscript(self, base, idx, node):
         if base[0] == "row" and idx[0] == "const" and idx[1] in (0, 1):
@@ -218,6 +305,10 @@ class Selector:
             if short == "get" and norm(n.func).endswith("environ.get") and n.args:
                 return [(s, ("envval", n.args[0].value if isinstance(n.args[0], ast.Constant) else "?")) for s in outs]
             return [(s, ("?", norm(n)[:40])) for s in outs]
+        if f == "next" and n.args and not n.keywords:
+            r = self.next_call(n, st)
+            if r is not None:
+                return r
         if short in ("reversed", "sorted", "list", "tuple", "iter") and len(n.args) >= 1 and isinstance(n.args[0], ast.Name) \
                 and n.args[0].id == self.regname:
             return [(st, ("registry",) if short in ("list", "tuple", "iter") else ("registry", short))]
@@ -306,7 +397,7 @@ class Selector:
             pos = isinstance(op, (ast.Is, ast.Eq))
             if other[0] == "none":
                 return [(st, pos)]
-            if is_modulish(other) or other[0] in ("const", "rowname", "rowmod", "tuple"):
+            if is_modulish(other) or other[0] in ("const", "rowname", "rowmod", "tuple", "rowlist"):
                 return [(st, not pos)]
             return [(s, tr if pos else not tr) for s, tr in self.fork(("isnone", other), st, node)]
         if isinstance(op, (ast.In, ast.NotIn)):
